@@ -196,8 +196,12 @@ class ControlParser(ArgumentParser):
             raise SubParsersNotInitialized
         subparser_kwargs.setdefault("name", function.__name__.replace("_", "-"))
         subparser_kwargs.setdefault("prog", subparser_kwargs["name"])
-        subparser_kwargs.setdefault("help", get_first_doc_line(function))
-        subparser_kwargs.setdefault("description", subparser_kwargs["help"])
+        doc_line = get_first_doc_line(function)
+        subparser_kwargs.setdefault(
+            "description", subparser_kwargs.get("help", doc_line)
+        )
+        # `argparse` %-formats help strings (but not descriptions)
+        subparser_kwargs.setdefault("help", _escape_percent(doc_line))
         subparser = self._commands.add_parser(**subparser_kwargs)
         subparser.add_function_args(function, omit_params)
         return subparser
@@ -233,7 +237,11 @@ class ControlParser(ArgumentParser):
         subparser_kwargs.setdefault("prog", subparser_kwargs["name"])
         getter_help = get_first_doc_line(prop.fget)
         if prop.fset is None:
-            subparser_kwargs.setdefault("help", getter_help)
+            subparser_kwargs.setdefault(
+                "description", subparser_kwargs.get("help", getter_help)
+            )
+            # `argparse` %-formats help strings (but not descriptions)
+            subparser_kwargs.setdefault("help", _escape_percent(getter_help))
         else:
             subparser_kwargs.setdefault(
                 "help",
@@ -244,8 +252,8 @@ class ControlParser(ArgumentParser):
         if prop.fset is not None:
             _, param = signature(prop.fset).parameters.values()
             setter_arg_help = (
-                f"If provided: {get_first_doc_line(prop.fset)} "
-                f"If omitted: {getter_help}"
+                f"If provided: {_escape_percent(get_first_doc_line(prop.fset))} "
+                f"If omitted: {_escape_percent(getter_help)}"
             )
             subparser.add_function_arg(
                 param, nargs="?", default=SUPPRESS, help=setter_arg_help
@@ -411,6 +419,11 @@ class ControlParser(ArgumentParser):
                 #       shows the type it will be converted to.
                 # https://github.com/daniil-berg/asyncio-taskpool/issues/3
                 self.add_function_arg(param, help=repr(param.annotation))
+
+
+def _escape_percent(text: str | None) -> str | None:
+    """Makes a docstring line safe to be used as an `argparse` help string."""
+    return None if text is None else text.replace("%", "%%")
 
 
 def _get_arg_type_wrapper(cls: Type[Any]) -> Callable[[Any], Any]:
